@@ -93,6 +93,9 @@ pub enum AltKind {
     Timer,
     /// `notify_one` wakes a waiter other than the longest-waiting one
     Waiter,
+    /// a condition-variable wait returns although nobody notified it and no timeout
+    /// expired (std allows this); offered only while `ctl::spurious(true)` is in force
+    Spurious,
 }
 
 #[derive(Clone, Debug)]
@@ -162,6 +165,9 @@ pub struct State {
     pub replay: Vec<(u32, u32)>,
     pub decisions: Vec<Decision>,
     pub window_open: bool,
+    /// spurious condition-variable wake-ups are offered as 1-cost deviations
+    pub spurious: bool,
+    pub spurious_wakes: u64,
     pub divergence: Option<String>,
     pub end: Option<End>,
     // observation of the schedule
@@ -226,6 +232,7 @@ pub fn try_with_state<R>(f: impl FnOnce(&mut State, Tid) -> R) -> Option<R> {
 enum Alt {
     Run(Tid),
     Fire(Tid),
+    Spurious(Tid),
 }
 
 fn fnv(h: u64, v: u64) -> u64 {
@@ -255,6 +262,8 @@ impl State {
             replay: cfg.replay.clone(),
             decisions: Vec::new(),
             window_open: cfg.window_open,
+            spurious: false,
+            spurious_wakes: 0,
             divergence: None,
             end: None,
             trace_hash: 0xcbf29ce484222325,
@@ -338,6 +347,37 @@ impl State {
         }
         v.sort();
         v
+    }
+
+    /// Threads parked in a condition-variable wait that nobody has notified.
+    fn parked_waiters(&self) -> Vec<Tid> {
+        if !self.spurious || !self.window_open {
+            return Vec::new();
+        }
+        let mut v = Vec::new();
+        for (t, th) in self.threads.iter().enumerate() {
+            if th.finished {
+                continue;
+            }
+            if let Some(Op::CvWait { .. }) = th.pending {
+                if !th.notified && !th.timed_out {
+                    v.push(t);
+                }
+            }
+        }
+        v
+    }
+
+    fn wake_spuriously(&mut self, t: Tid) {
+        self.spurious_wakes += 1;
+        if let Some(Op::CvWait { cv, .. }) = self.threads[t].pending {
+            self.threads[t].notified = true;
+            self.condvars[cv].retain(|&w| w != t);
+        }
+        if self.tracing {
+            let line = format!("        ~ t{} wakes spuriously from its condvar wait", t);
+            self.trace.push(line);
+        }
     }
 
     fn fire(&mut self, t: Tid) {
@@ -452,6 +492,7 @@ pub fn dispatch(exec: &Exec, st: &mut State) {
         let n = st.threads.len();
         let run: Vec<Tid> = (0..n).filter(|&t| st.is_enabled(t)).collect();
         let tm = st.timers();
+        let sp = st.parked_waiters();
         let mut alts: Vec<Alt> = Vec::new();
         let mut kinds: Vec<AltKind> = Vec::new();
         if !run.is_empty() {
@@ -477,6 +518,10 @@ pub fn dispatch(exec: &Exec, st: &mut State) {
                 alts.push(Alt::Fire(t));
                 kinds.push(AltKind::Timer);
             }
+            for &t in &sp {
+                alts.push(Alt::Spurious(t));
+                kinds.push(AltKind::Spurious);
+            }
         } else {
             let settle: Vec<Tid> = (0..n)
                 .filter(|&t| !st.threads[t].finished && st.threads[t].pending == Some(Op::Settle))
@@ -492,6 +537,10 @@ pub fn dispatch(exec: &Exec, st: &mut State) {
                     alts.push(Alt::Fire(t));
                     kinds.push(AltKind::Timer);
                 }
+                for &t in &sp {
+                    alts.push(Alt::Spurious(t));
+                    kinds.push(AltKind::Spurious);
+                }
             } else if !tm.is_empty() {
                 // quiescence: time passes, the earliest deadline fires at no cost
                 alts.push(Alt::Fire(tm[0].1));
@@ -499,6 +548,10 @@ pub fn dispatch(exec: &Exec, st: &mut State) {
                 for &(_, t) in &tm[1..] {
                     alts.push(Alt::Fire(t));
                     kinds.push(AltKind::Timer);
+                }
+                for &t in &sp {
+                    alts.push(Alt::Spurious(t));
+                    kinds.push(AltKind::Spurious);
                 }
             } else {
                 let all_done = st.threads.iter().all(|t| t.finished);
@@ -527,6 +580,9 @@ pub fn dispatch(exec: &Exec, st: &mut State) {
             }
             Alt::Fire(t) => {
                 st.fire(t);
+            }
+            Alt::Spurious(t) => {
+                st.wake_spuriously(t);
             }
         }
     }
@@ -700,6 +756,7 @@ pub struct RunResult {
     pub threads_spawned: usize,
     pub notes: Vec<String>,
     pub trace: Vec<String>,
+    pub spurious_wakes: u64,
     pub timer_fires: u64,
 }
 
@@ -745,6 +802,7 @@ pub fn run<F: FnOnce() + Send + 'static>(cfg: &RunCfg, f: F) -> RunResult {
         threads_spawned: st.threads.len(),
         notes: std::mem::take(&mut st.notes),
         trace: std::mem::take(&mut st.trace),
+        spurious_wakes: st.spurious_wakes,
         timer_fires: st.timer_fires,
     };
     drop(st);
